@@ -1,0 +1,13 @@
+//go:build verif
+
+// Copyright © 2022-2026 Obol Labs Inc. Licensed under the terms of a Business Source License 1.1
+
+package cluster
+
+// Verification hook (build tag verif): the builder registration check of Lock.VerifySignatures,
+// callable on its own. No behaviour is added or changed.
+
+// VerifVerifyBuilderRegistrations is Lock.verifyBuilderRegistrations.
+func (l Lock) VerifVerifyBuilderRegistrations() error {
+	return l.verifyBuilderRegistrations()
+}
